@@ -561,14 +561,14 @@ func (r *CheckRun) report(aggs []*AggObl, freports []FuncReport, vacuity []strin
 			if !confirmed {
 				suffix = " no-failing-input-found"
 			}
-			// a refuted safety obligation of a function whose other obligations are in the baseline is new code that can fault
+			// a refuted safety or frame obligation of a function whose other obligations are in the baseline is new code that can fault / writes outside the modifies clause
 			funcProved := false
 			for n := range inBase {
 				if strings.HasPrefix(n, a.Func+" ") {
 					funcProved = true
 				}
 			}
-			if inBase[id] || len(baseline[r.Prop]) == 0 || confirmed || (a.Name == "safety" && funcProved) {
+			if inBase[id] || len(baseline[r.Prop]) == 0 || confirmed || ((a.Name == "safety" || a.Name == "frame") && funcProved) {
 				lines = append(lines, fmt.Sprintf("VIOLATION property=%s replay=%s%s", r.Prop, replay, suffix))
 				violations++
 				exit = 1
@@ -756,7 +756,7 @@ func (r *CheckRun) writeEvidence(total, discharged, violations int, samples []in
 			"obligation_list":          obls,
 			"solver_time_s":            float64(solverMs) / 1000,
 			"known_findings_printed":   known,
-			"back_ends":                "SMT: z3-new 5.1.0 first (deterministic resource limit), then z3 4.8.12 / z3-new / cvc5 1.0.3 raced; thorough tier re-checks every proof on the other two. Non-SMT back ends, each decided on the real artefacts: ground-eval (embedded data with the real library functions), table-eval (tables produced by running the real constructors), json-judgement (derivation over the type declarations)",
+			"back_ends":                "SMT: z3-new 5.1.0 first (deterministic resource limit), then z3 4.8.12 / z3-new / cvc5 1.0.3 raced; thorough tier re-checks every proof on the other two. Non-SMT back ends, each decided on the real artefacts: ground-eval (embedded data with the real library functions), table-eval (tables produced by running the real constructors), json-judgement (derivation over the type declarations), order-judgement (map-iteration order over go/ssa), flow-judgement (secret data dependence over go/ssa)",
 			"discharged_by_back_end":   byBackend,
 		},
 		"assumptions": engineAssumptions,
